@@ -242,18 +242,35 @@ Section WithTables.
         end
     end.
 
-  (* what the class constructor does to the result: TimestampProperty.clean on `modified`
-     (v2.0 classes: millisecond/exact, v2.1 classes: millisecond/min); every other value is
-     assumed to be accepted unchanged (legal change sets)                     *)
+  (* what the class constructor does to the dictionary it receives.  Schema validation is not
+     modelled here (C02/C03 do that): it is abstracted by two parameters that the theorems
+     quantify over --
+       ctor_check v d  : None if the class of spec version v accepts the properties d, else the
+                         class of the exception it raises (missing / extra / invalid property,
+                         co-constraint ...);
+       clean_prop v k x: what the property's clean() stores for an accepted value x of property k
+     -- so the constructor can only fail or return the cleaned form of its argument.  The one
+     property modelled concretely is `modified`: TimestampProperty.clean (v2.0 classes:
+     millisecond/exact, v2.1 classes: millisecond/min).  Dicts are rebuilt with the dict constructor: unchanged. *)
+  Variable clean_prop : sver -> ustring -> pval -> pval.
+  Variable ctor_check : sver -> pdict -> option string.
+
+  Definition clean_all (v : sver) (d : pdict) : pdict :=
+    map (fun kv => (fst kv, clean_prop v (fst kv) (snd kv))) d.
+
   Definition construct (c : carrier) (d : pdict) : result pdict :=
     match c with
     | CObject v =>
-        match plookup (u "modified") d with
-        | Some m => match parse_ts v (Some m) with
-                    | Ok (l, o) => Ok (set_key (u "modified") (PDt l o) d)
-                    | Raise _ => Raise "InvalidValueError"
-                    end
-        | None => Ok d
+        match ctor_check v d with
+        | Some e => Raise e
+        | None =>
+            match plookup (u "modified") d with
+            | Some m => match parse_ts v (Some m) with
+                        | Ok (l, o) => Ok (set_key (u "modified") (PDt l o) (clean_all v d))
+                        | Raise _ => Raise "InvalidValueError"
+                        end
+            | None => Ok (clean_all v d)
+            end
         end
     | _ => Ok d
     end.
@@ -490,5 +507,10 @@ Fixpoint show_steps (c : carrier) (cur : pdict) (tr : list outcome) : string :=
   | Refused e :: rest => append "EXC " (append e (append sep (show_steps c cur rest)))
   end.
 
+(* the correspondence runs use legal change sets of already clean values: the constructor accepts
+   them and stores them as they are *)
+Definition clean_id : sver -> ustring -> pval -> pval := fun _ _ x => x.
+Definition accept_all : sver -> pdict -> option string := fun _ _ => None.
+
 Definition show_chain (T : vtables) (nm : naive_mode) (c : carrier) (d : pdict) (ops : list op) : string :=
-  show_steps c d (run_chain T nm c d ops).
+  show_steps c d (run_chain T nm clean_id accept_all c d ops).
